@@ -28,10 +28,19 @@ import (
 // ---------- configuration ----------
 type Cfg struct {
 	MaxNode, MaxKey, MaxVal, FlushThld, SyncThld, MaxBuf, CompThld, MaxSnaps, Cache, FileSize int
+	NLogFiles                                                                                 int // nodes-log max opened files (0 = default 10)
 	Cleanup                                                                                   float32
 }
 
 func (c Cfg) opts() *tbtree.Options {
+	o := c.baseOpts()
+	if c.NLogFiles > 0 {
+		o.WithNodesLogMaxOpenedFiles(c.NLogFiles)
+	}
+	return o
+}
+
+func (c Cfg) baseOpts() *tbtree.Options {
 	return tbtree.DefaultOptions().
 		WithLogger(logger.NewSimpleLoggerWithLevel("vh", io.Discard, logger.LogError)).
 		WithMaxKeySize(c.MaxKey).WithMaxValueSize(c.MaxVal).WithMaxNodeSize(c.MaxNode).
